@@ -24,6 +24,8 @@ impl ImmutableTrees {
         ensures r.snap() == IMap::<u32, TNode>::empty(), forall|id: u32| !r.db_has(id)
     { unimplemented!() }
 }
+/// a staging area created during a pass avoids every tree id the frozen view saw in the database (rule R14 with //@tmpctx)
+impl<'a> FreshCtx for FrozzenReader<'a> { open spec fn has_tree(&self, i: u16, id: u32) -> bool { self.trees.db_has(id) } }
 impl ImmutableLeafs {
     /// parallel.rs::ImmutableLeafs::new: the contract PROVED in unit `leafs_new` (lib/contracts/immutable_leafs_new.spec),
     /// restated over the abstract `ids()` of this stand-in
